@@ -24,9 +24,12 @@ RULE = ('cases: (a) entropy cases = language x entropy size 16/20/24/28/32 x pat
         'composed/decomposed accents, compatibility characters, CJK, emoji) x sentence spelling (NFKD, NFC, ideographic '
         'space); each runs to_mnemonic, to_entropy, to_seed and HDKey.from_passphrase against the reference; (b) every '
         'single-word substitution (2047 alternatives) at a position of a sampled valid sentence plus out-of-list words, '
-        'the reference deciding which keep a valid checksum; (c) generate(); (d) word-list digests/structure. '
+        'the reference deciding which keep a valid checksum; (c) generate(); (d) word-list digests/structure; (e) sequences '
+        'of 7-16 operations on ONE Mnemonic object of language A: sentences of another language B are handed to to_seed / '
+        'to_entropy / sanitize_mnemonic / detect_language before, between and after the own-language services (to_mnemonic, '
+        'generate, word, wordlist, to_entropy, to_seed), four orders, all ordered language pairs reachable; '
         'non-trivial = distinct (kind, language, size, pattern, form, passphrase class, spelling) tuples, and for (b) '
-        'distinct (language, size, position, verdict class, word bucket) tuples')
+        'distinct (language, size, position, verdict class, word bucket) tuples, for (e) distinct (A, B, operation list)')
 TRUSTED_BASE = ['vf/refs/bip39.py (self-checked: TREZOR English vectors, Japanese NFKD vector, repo tests/mnemonics_tests.json)',
                 'vf/refs/bip32.py master key (BIP32 vectors) for HDKey.from_passphrase',
                 'golden/wordlists.sha256: digests pinned from tree 074a788 (english.txt equals the published BIP39 list digest); '
@@ -386,6 +389,125 @@ def chk_subst_position(lang, ent, pos, col, rnd, seed_every=97, step=1):
         chk_subst_one(lang, ent, pos, w, col, m=m, also_seed=True)
 
 
+# ------------------------------------------------------------------------------------------------- sequences
+FOREIGN_OPS = ('to_seed', 'to_entropy', 'sanitize', 'detect', 'to_seed_novalidate')
+OWN_OPS = ('to_mnemonic', 'word', 'wordlist', 'generate', 'to_entropy', 'to_seed')
+
+
+def chk_sequence(case, col):
+    """Several operations on ONE Mnemonic object: the object is made for language A; it is handed sentences written in
+    another bundled language B (to_seed / to_entropy / sanitize_mnemonic / detect_language) and, before and after that,
+    asked for its own-language services. Whatever it has parsed, to_mnemonic / generate / word / wordlist / to_entropy /
+    to_seed of the object must stay those of language A (judged by the reference over A's list), and a seed it returns
+    for the B sentence must be the BIP39 seed of that sentence. `ops` is the exact operation list (replayable)."""
+    from bitcoinlib.mnemonic import Mnemonic
+    A, B = case['lang'], case['other']
+    ent_a, ent_b = bytes.fromhex(case['ent']), bytes.fromhex(case['ent_other'])
+    wa, wb = wordlist(A), wordlist(B)
+    sent_a, sent_b = ref.to_mnemonic(ent_a, wa), ref.to_mnemonic(ent_b, wb)
+    ops = case['ops']
+    col.case('sequence/%s' % A, nontrivial=('sequence', A, B, tuple(ops)), sample=case)
+    try:
+        m = Mnemonic(A)
+    except Exception as e:
+        col.violation(None, 'Mnemonic(%r) raised %r' % (A, e), case, repr(e), None)
+        return
+    done = []
+    for n, op in enumerate(ops):
+        who, name = op.split(':')
+        hist = ' after [%s]' % ', '.join(done) if done else ''
+        where = 'Mnemonic(%s) step %d %s%s' % (A, n + 1, op, hist)
+        col.probe('seq_' + who)
+        try:
+            if who == 'foreign':
+                # a foreign sentence may be refused (any exception); what is returned must be right
+                try:
+                    if name == 'to_seed':
+                        got = bytes(m.to_seed(sent_b, case.get('pass', '')))
+                        if got != ref.to_seed(sent_b, case.get('pass', '')):
+                            col.violation(None, '%s: seed of the %s sentence is not its BIP39 seed' % (where, B), case, got, ref.to_seed(sent_b, case.get('pass', '')))
+                    elif name == 'to_seed_novalidate':
+                        got = bytes(m.to_seed(sent_b, case.get('pass', ''), validate=False))
+                        if got != ref.to_seed(sent_b, case.get('pass', '')):
+                            col.violation(None, '%s: seed of the %s sentence is not its BIP39 seed' % (where, B), case, got, ref.to_seed(sent_b, case.get('pass', '')))
+                    elif name == 'to_entropy':
+                        got = bytes(m.to_entropy(sent_b))
+                        ok = [ent_b]
+                        try:
+                            ok.append(ref.to_entropy(sent_b, wa))      # the sentence may also be a valid A sentence
+                        except ref.Bip39Error:
+                            pass
+                        if got not in ok:
+                            col.violation(None, '%s: returned an entropy that belongs to neither reading of the sentence' % where, case, got, ent_b)
+                    elif name == 'sanitize':
+                        got = m.sanitize_mnemonic(sent_b)
+                        if got != sent_b:
+                            col.violation(None, '%s: sanitize_mnemonic changed a normalised sentence' % where, case, got, sent_b)
+                    elif name == 'detect':
+                        got = m.detect_language(sent_b)
+                        if got != B and not all(w in wordlist(got) for w in sent_b.split(' ')):
+                            col.violation(None, '%s: detect_language named a list that does not contain the words' % where, case, got, B)
+                except Exception:
+                    col.probe('seq_foreign_refused')
+            else:
+                if name == 'to_mnemonic':
+                    got = m.to_mnemonic(ent_a, check_on_curve=False)
+                    if got != sent_a:
+                        col.violation(None, '%s: to_mnemonic is not the %s sentence of the entropy' % (where, A), case, got, sent_a)
+                elif name == 'word':
+                    idx = [0, 1, 2047, int.from_bytes(ent_a[:2], 'big') % 2048]
+                    got = [unicodedata.normalize('NFKD', m.word(i)) for i in idx]
+                    if got != [wa[i] for i in idx]:
+                        col.violation(None, '%s: word(i) is not word i of the %s list' % (where, A), case, got, [wa[i] for i in idx])
+                elif name == 'wordlist':
+                    got = [unicodedata.normalize('NFKD', w) for w in m.wordlist()]
+                    if got != wa:
+                        col.violation(None, '%s: wordlist() is not the %s list' % (where, A), case, got[:3] + got[-1:], wa[:3] + wa[-1:])
+                elif name == 'generate':
+                    got = m.generate(len(ent_a) * 8)
+                    try:
+                        e = ref.to_entropy(got, wa)
+                        if got != ref.to_mnemonic(e, wa) or len(e) != len(ent_a):
+                            raise ref.Bip39Error('size/spelling')
+                    except ref.Bip39Error as ex:
+                        col.violation(None, '%s: generate() did not return a valid %s sentence (%s)' % (where, A, ex), case, got, 'valid %s sentence' % A)
+                elif name == 'to_entropy':
+                    got = bytes(m.to_entropy(sent_a))
+                    if got != ent_a:
+                        col.violation(None, '%s: to_entropy of an own-language sentence is wrong' % where, case, got, ent_a)
+                elif name == 'to_seed':
+                    got = bytes(m.to_seed(sent_a, case.get('pass', '')))
+                    if got != ref.to_seed(sent_a, case.get('pass', '')):
+                        col.violation(None, '%s: to_seed of an own-language sentence is wrong' % where, case, got, ref.to_seed(sent_a, case.get('pass', '')))
+        except Exception as e:
+            col.violation(_asciihex_key(m, ent_a, e, wa) if name in ('to_entropy', 'to_seed') else None,
+                          '%s raised %r' % (where, e), case, repr(e), 'own-language service of a Mnemonic(%s) object' % A)
+        done.append(op)
+
+
+def gen_sequence(rnd, g, langs):
+    A = langs[g % len(langs)]
+    B = langs[(g + 1 + (g // len(langs)) % (len(langs) - 1)) % len(langs)]
+    nbytes = ref.ENT_BYTES[(g // 3) % 5]
+    shape = g % 4
+    f = ['foreign:' + FOREIGN_OPS[(g // 4 + k) % len(FOREIGN_OPS)] for k in range(2)]
+    own = ['own:' + o for o in rnd.sample(OWN_OPS, len(OWN_OPS))]
+    if shape == 0:          # foreign parse first, then every own service
+        ops = f[:1] + own
+    elif shape == 1:        # own services, foreign parse, own services again
+        ops = own[:3] + f[:1] + own
+    elif shape == 2:        # two different foreign operations interleaved with own services
+        ops = own[:2] + f[:1] + own[2:4] + f[1:] + own
+    else:                   # own-language parse directly after a foreign parse, then generation
+        ops = f[:1] + ['own:to_entropy', 'own:to_seed', 'foreign:to_seed', 'own:to_mnemonic', 'own:generate', 'own:word', 'own:wordlist']
+    while True:
+        ent = rnd.randbytes(nbytes)
+        if not _asciihex(ent):
+            break
+    return {'kind': 'sequence', 'lang': A, 'other': B, 'ent': ent.hex(), 'ent_other': rnd.randbytes(rnd.choice(ref.ENT_BYTES)).hex(),
+            'pass': rnd.choice(['', 'TREZOR']), 'ops': ops}
+
+
 def chk_generate(lang, strength, col):
     from bitcoinlib.mnemonic import Mnemonic
     case = {'kind': 'generate', 'lang': lang, 'strength': strength}
@@ -430,6 +552,8 @@ def run_case(case, col):
         chk_generate(case['lang'], case['strength'], col)
     elif k == 'wordlist':
         chk_wordlists(col)
+    elif k == 'sequence':
+        chk_sequence(case, col)
 
 
 def replay(case, col):
@@ -446,7 +570,7 @@ def plan(tier, seed, scale=1.0):
     specs = []
     for i in range(nshard):
         specs.append({'shard': i, 'nshard': nshard, 'n_entropy': max(9, n_ent // nshard), 'n_sentences': n_sent,
-                      'extra_units': extra_units})
+                      'extra_units': extra_units, 'n_sequences': max(3, int((150 if thorough else 6) * scale))})
     return specs
 
 
@@ -479,7 +603,7 @@ def run_shard(spec, col):
     if not _selfcheck(col):
         return
     for p in ('to_mnemonic', 'to_entropy', 'to_seed', 'from_passphrase', 'subst_to_entropy', 'subst_valid', 'subst_badsum',
-              'subst_outside', 'wordlist_digest'):
+              'subst_outside', 'wordlist_digest', 'seq_foreign', 'seq_own'):
         col.require(p)
     rnd = random.Random('%s-%d-%d' % (ID, spec['seed'], spec['shard']))
     sh, ns = spec['shard'], spec['nshard']
@@ -503,6 +627,9 @@ def run_shard(spec, col):
         case = {'kind': 'entropy', 'lang': lang, 'ent': ent.hex(), 'form': form, 'pass': pw, 'pcls': pcls,
                 'spelling': rnd.choice(spellings), 'pattern': pattern, 'hd': True}
         chk_entropy(case, col)
+    # -- sequences on one object across languages
+    for i in range(spec.get('n_sequences', 6)):
+        chk_sequence(gen_sequence(rnd, spec['seed'] * 7919 + i * ns + sh, langs), col)
     chk_generate(langs[sh % len(langs)], [128, 160, 192, 224, 256][(sh // len(langs) + spec['seed']) % 5], col)
     # -- substitution units striped over shards
     units = _subst_units(spec)
